@@ -217,7 +217,7 @@ def plan(tier, seed):
         jobs += [('exh3-h0-rel', 'release', 'cache_trace', ['exhaust', '3', '0', '0']), ('exh3-h1-rel', 'release', 'cache_trace', ['exhaust', '3', '0', '1']),
                  ('exh4-h0-rel', 'release', 'cache_trace', ['exhaust', '4', '1', '0']), ('exh4-h1-dbg', 'debug', 'cache_trace', ['exhaust', '4', '1', '1'])]
         jobs.append(('clog-rel', 'release', 'cache_trace', ['gen', '0', '4100', '9', 'clog']))
-        jobs.append(('clog-dbg', 'debug', 'cache_trace', ['gen', '0', '4100', '9', 'clog']))
+        jobs.append(('clog-dbg', 'debug', 'cache_trace', ['gen', '0', '700', '9', 'clog']))
         for ty in ('pd', 'dp', 'df', 'dn'):
             jobs.append(('mix-%s-rel' % ty, 'release', 'cache_trace', ['gen', str(seed * 100 + 95), '3000', '70', 'mix', ty]))
             jobs.append(('churn-%s-rel' % ty, 'release', 'cache_trace', ['gen', str(seed * 100 + 96), '60', '700', 'churn', ty]))
